@@ -721,6 +721,26 @@ fn replay(path: &str) -> i32 {
             r
         }
         "prune" => None,
+        // tree construction only, in THIS process: an unbounded recursion aborts it (exit by signal)
+        "build_probe" => {
+            let data = rows_from_json(&inp["data"]);
+            let f32m = inp["f32"].as_bool().unwrap_or(false);
+            let r = if f32m {
+                let m = dense32(&data);
+                guard(|| {
+                    BBDTree::new(&m);
+                })
+            } else {
+                let m = dense(&data);
+                guard(|| {
+                    BBDTree::new(&m);
+                })
+            };
+            match r {
+                Ok(_) => None,
+                Err(e) => Some(("build_panic".to_string(), format!("BBDTree::new panicked: {}", e))),
+            }
+        }
         _ => {
             eprintln!("unknown replay entry");
             return 2;
